@@ -47,12 +47,56 @@ func (x *Exec) mutexOf(recv Value) (string, string, *Term, bool) {
 }
 
 func (x *Exec) lockOp(n *node, recv Value, pos token.Pos, what string) {
-	st := n.st
 	owner, field, obj, ok := x.mutexOf(recv)
 	if !ok {
+		// a mutex reached through a pointer (no declared invariant): only "is it held" is tracked, by its reference
+		if sc, isS := recv.(Scalar); isS && sc.T.S == IntS {
+			key := "*" + x.refKey(sc.T)
+			if what == "Lock" {
+				n.st.Locks[key] = true
+			} else {
+				delete(n.st.Locks, key)
+			}
+			return
+		}
+		if lv, isL := recv.(LocV); isL && lv.Obj != nil {
+			key := "*" + x.refKey(lv.Obj)
+			if what == "Lock" {
+				n.st.Locks[key] = true
+			} else {
+				delete(n.st.Locks, key)
+			}
+			return
+		}
 		x.VC.Warnf("%s on a mutex the engine cannot identify in %s", what, x.TopName)
 		return
 	}
+	x.lockOpNamed(n, owner, field, obj, pos, what)
+}
+
+// condWait: sync.Cond.Wait on a condition variable that is a field of the object owning a declared lock behaves as
+// Unlock (the lock invariant is an obligation) followed by Lock (guarded state havocked, invariant assumed).
+func (x *Exec) condWait(n *node, recv Value, pos token.Pos) bool {
+	lv, ok := recv.(LocV)
+	if !ok || lv.Kind != "field" {
+		return false
+	}
+	for _, li := range x.P.Spec.Locks {
+		name := lockName(li)
+		k := strings.Index(name, ".")
+		if k < 0 || name[:k] != lv.Outer || !n.st.Locks[name] {
+			continue
+		}
+		x.VC.Assumptions["sync.Cond.Wait on a field of "+lv.Outer+" is used with "+name+" (cond.L is that mutex)"] = true
+		x.lockOpNamed(n, lv.Outer, name[k+1:], lv.Obj, pos, "Unlock")
+		x.lockOpNamed(n, lv.Outer, name[k+1:], lv.Obj, pos, "Lock")
+		return true
+	}
+	return false
+}
+
+func (x *Exec) lockOpNamed(n *node, owner, field string, obj *Term, pos token.Pos, what string) {
+	st := n.st
 	li := x.lockInvFor(owner, field)
 	name := owner + "." + field
 	if li == nil {
@@ -410,6 +454,12 @@ func (e *SpecEnv) ghostCall(name string, n *ast.CallExpr) (Value, bool) {
 			}
 			return Scalar{T: False, Ty: tyBool}, true
 		}
+	case name == "holdsptr" && len(n.Args) == 1:
+		// holdsptr(p): the mutex p points to was locked by this activation and not yet unlocked
+		r := ref(e.eval(n.Args[0]))
+		if r != nil {
+			return Scalar{T: boolTerm(e.st.Locks["*"+x.refKey(r)]), Ty: tyBool}, true
+		}
 	case name == "onceDone" && len(n.Args) == 1:
 		r := ref(e.eval(n.Args[0]))
 		if r != nil {
@@ -466,4 +516,23 @@ func (x *Exec) applyObserve(n *node, owner, field string, obj *Term, v Value) {
 	n.st.noRecord++
 	x.objSet(n.st, "ghost."+flag, obj, Or(cur, sc.T))
 	n.st.noRecord--
+}
+
+func boolTerm(b bool) *Term {
+	if b {
+		return True
+	}
+	return False
+}
+
+// refKey names a reference term by its definition (two loads of the same location in the same heap agree).
+func (x *Exec) refKey(t *Term) string {
+	for i := 0; i < 8 && t.Op == "const"; i++ {
+		di, ok := x.VC.defs[t.Name]
+		if !ok {
+			break
+		}
+		t = x.VC.Facts[di].Body.Args[1]
+	}
+	return t.String()
 }
